@@ -15,7 +15,8 @@ def _digests_pool(mod, idxs, workers, tier):
     res, completed, errors = core.run_pool(mod._digest_worker, idxs, workers=workers, chunk=8, hang_s=300)
     if errors:
         raise core.HarnessError(f'selftest worker errors: {errors[:2]}')
-    return {i: r['digest'] for i, r in res.items()}
+    # a run set aside by the soft wall-clock limit (machine under load) has no digest: it is compared in no mode
+    return {i: r['digest'] for i, r in res.items() if 'digest' in r}
 
 
 def _digests_fresh(prop, a, b, hashseed):
@@ -57,6 +58,8 @@ def main(argv):
         dfb = _digests_fresh(prop, half // 2, half, '1')
         diffs = []
         for i in idxs:
+            if i not in d16:
+                continue
             ref = d16[i]
             for name, d in (('pool5-reversed', d16b), ('inline', d1), ('fresh-hashseed-12345', dfa), ('fresh-hashseed-1', dfb)):
                 if i in d and d[i] != ref:
